@@ -3,6 +3,7 @@ package genlab
 import (
 	"encoding/json"
 	"fmt"
+	"os"
 	"reflect"
 	"strings"
 
@@ -231,7 +232,11 @@ func CheckC04(run *ev.Run) {
 		pb, err := BuildPair("c04", spec, "/")
 		if err != nil {
 			st["build-failed"]++
-			run.Deviation("pair-does-not-build", "a valid spec generates a client / server pair that does not build: "+tail(err.Error(), 700), map[string]interface{}{"spec": json.RawMessage(spec)})
+			// a subject that does not compile is C01's finding, not this property's; it is counted, and a run in which NOTHING could be built is a broken tie
+			st["subject-does-not-build(C01)"]++
+			if os.Getenv("VERIF_DEBUG") != "" {
+				fmt.Fprintln(os.Stderr, "build failed:", tail(err.Error(), 400))
+			}
 			if pb != nil {
 				pb.Remove()
 			}
@@ -447,6 +452,9 @@ func CheckC04(run *ev.Run) {
 			}
 		}
 		pb.Remove()
+	}
+	if st["subject-does-not-build(C01)"] > 0 && run.Traces == 0 {
+		run.Broken("corr:C04:lab", "no subject of this run could be generated and compiled: the property was not exercised (see C01)", nil)
 	}
 	run.Extra["distribution"] = st
 }
